@@ -142,6 +142,14 @@ func RunSeed(seed uint64, prof *Profile, opts RunOpts) (res *RunResult) {
 		lh.add([]byte(v.Signature()))
 	}
 	res.LogHash = hex.EncodeToString(lh.h[:])
+	// observation, not a judgement: iterators the application opened on its store and never closed
+	for _, n := range c.Nodes {
+		if n.sdb != nil {
+			if k := n.sdb.NeverClosed(); k > 0 {
+				c.Stats.Probe["db_iterators_never_closed(observation)"] += int(k)
+			}
+		}
+	}
 	finishResult(res, c, ex)
 	if len(ex.Viol) > 0 {
 		tr.Violation = ex.Viol[0]
